@@ -338,12 +338,18 @@ NAME_RE = re.compile(r'[A-Za-z][A-Za-z0-9]*\Z')
 HTML_RAWTEXT = {'script', 'style', 'textarea', 'title', 'xmp', 'iframe', 'noembed', 'noframes', 'plaintext'}
 def ordinary_url(u):
     return u != '' and not any(c in '"<>&{}()\\%#~^$ ' or c.isspace() for c in u)
-def tree_in_oracle_domain(t):
+def url_in_domain(u, b):
+    """ordinary URLs, per back end: what the URL must not contain for the back end's own syntax"""
+    if u == '' or any(c.isspace() for c in u):
+        return False
+    bad = {0: '"<>&', 1: '{}\\', 2: '()<>"', 3: ''}[b]
+    return not any(c in bad for c in u)
+def tree_in_oracle_domain(t, b=None):
     """tag names are names, URLs are ordinary, symbols are the three documented ones"""
     for n in markup_nodes(t):
         if n[0] == 3 and (not NAME_RE.match(S(n[1])) or S(n[1]).lower() in HTML_RAWTEXT):
             return False
-        if n[0] == 4 and not ordinary_url(S(n[1])):
+        if n[0] == 4 and not (ordinary_url(S(n[1])) if b is None else url_in_domain(S(n[1]), b)):
             return False
     return all(a[0] != 'sym' or a[1] in ('nbsp', 'ndash', 'newblock') for a, _ in leaves(t) if isinstance(a, tuple))
 
@@ -483,7 +489,14 @@ def latex_tokens(out):
                     if out[j:j + 1] == '[':
                         j = out.find(']', j) + 1
                     if out[j:j + 1] == '{':
-                        j = out.find('}', j) + 1
+                        k = out.find('}', j)
+                        toks.append(('link', out[j + 1:k], d)); j = k + 1
+                elif name == 'url' and out[j:j + 1] == '{':
+                    # \url{url}: the argument is verbatim -- it is the URL AND the (unescaped) text
+                    k = out.find('}', j)
+                    toks.append(('link', out[j + 1:k], d))
+                    toks.extend(('c', ch, d + 1) for ch in out[j + 1:k])
+                    j = k + 1
                 toks.append(('cw', name, d)); i = j
             elif i + 1 < n:
                 toks.append(('c', ' ' if out[i + 1] == ' ' else out[i + 1], d)); i += 2
@@ -526,9 +539,11 @@ def oracle_latex(tree, out):
             exp.extend([('c', '-', st), ('c', '-', st)])
         elif a[1] == 'newblock':
             exp.extend([('c', '\n', st), ('cw', 'newblock', st)])
-    got = []
+    got = []; links = []
     for (k, v, d) in latex_tokens(out):
-        if k == 'cw' and v == 'textasciitilde':
+        if k == 'link':
+            links.append(v)
+        elif k == 'cw' and v == 'textasciitilde':
             got.append(('c', '~', d))
         elif k == 'cw' and v != 'newblock':
             continue                                  # a command emitted for a tag
@@ -536,6 +551,12 @@ def oracle_latex(tree, out):
             got.append((k, v, d))
     if [g[:2] for g in got] != [e[:2] for e in exp]:
         return 'LaTeX output: characters %r differ from the text %r: %r' % ([g[1] for g in got][:40], [e[1] for e in exp][:40], out)
+    # the argument of \url / the first argument of \href is the URL the link was attached to, verbatim
+    hrefs = [n for n in markup_nodes(tree) if n[0] == 4]
+    if all(leaves(n) or not any(m[0] == 5 for m in markup_nodes(n)) for n in hrefs):
+        want = [S(n[1]) for n in hrefs if leaves(n)]
+        if links != want:
+            return 'LaTeX output: the URL arguments of \\url/\\href are %r but the links were attached to %r: %r' % (links, want, out)
     for (k, v, d), (_, _, st) in zip(got, exp):
         nprot = sum(1 for m in st if m == ('prot',))
         if not (nprot <= d <= len(st)):
@@ -552,7 +573,7 @@ def oracle_plain(tree, out):
 def oracle(fn, arg, out):
     if fn == 1:
         b, raw, tree = arg
-        if not tree_in_oracle_domain(tree):
+        if not tree_in_oracle_domain(tree, b):
             return None
         if out[0] != 0:
             return 'rendering raised instead of returning markup'
@@ -568,7 +589,10 @@ def oracle(fn, arg, out):
         v = S(arg[0])
         import codecs
         # the claim is about values on which latexcodec is the identity (enc = dec = id)
-        if not brace_balanced(v) or not all(c in LATEX_INERT or c in '{}' for c in v) or _decode(arg[0]) != [arg[0]]:
+        # ... a backslash only as the control symbol \\\\ (so no brace is escaped: every brace of the decoded text is a group)
+        if not brace_balanced(v) or not all(c in LATEX_INERT or c in '{}\\' for c in v) or _decode(arg[0]) != [arg[0]]:
+            return None
+        if any(len(m) % 2 for m in re.findall(r'\\+', v)):
             return None
         if out[0] != 0:
             return 'a brace-balanced field value was rejected'
@@ -615,7 +639,7 @@ def oracle(fn, arg, out):
         doc = S(out[1]); pos = 0
         be = _backend(b)
         for (k, l, t) in entries:
-            if not tree_in_oracle_domain(t):
+            if not tree_in_oracle_domain(t, b):
                 return None
             r = call_impl(lambda: build(t, 0).render(be))
             if r[0] != 0:
@@ -738,7 +762,7 @@ def rand_str(rng, maxlen=8, alpha=None):
     return ''.join(rng.choice(alpha) for _ in range(rng.randint(1, maxlen)))
 
 TAGS = ['em', 'strong', 'i', 'b', 'tt', 'sup', 'sub', 'zz', 'span', 'emph']
-URLS = ['u', 'http://example.org/', 'http://x.org/a_b?c=1', '/', 'ftp://h/p-q.r']
+URLS = ['u', 'http://example.org/', 'http://x.org/a_b?c=1', '/', 'ftp://h/p-q.r', 'http://x/some_page', 'http://x/a#b', 'http://x/%7Eu', 'http://x/a&b=c', 'http://x/~u/']
 def rand_tree(rng, depth, strgen, weird=False):
     r = rng.random()
     if depth <= 0 or r < 0.3:
@@ -776,7 +800,7 @@ def rand_latex(rng, depth, balanced=True):
         if r < 0.4 and depth > 0:
             out.append('{' + rand_latex(rng, depth - 1) + '}')
         elif r < 0.5:
-            out.append(rng.choice(['{}', '{{}}', '}{', '{', '}', '\\{', '\\}', '\\_', '\\&', '~', '--', "\\'e", '\\"{o}', '{\\"o}', '\\emph{x}', '$x^2$', '%', '\\', '  ']))
+            out.append(rng.choice(['{}', '{{}}', '}{', '{', '}', '\\{', '\\}', '\\\\{x}', '{x\\\\}', '\\\\', '\\\\\\{', '\\textbackslash{x}', '\\textbackslash{}', '\\_', '\\&', '~', '--', "\\'e", '\\"{o}', '{\\"o}', '\\emph{x}', '$x^2$', '%', '\\', '  ']))
         else:
             out.append(''.join(rng.choice('abcXY 12.,;:!?') for _ in range(rng.randint(1, 5))))
     return ''.join(out)
@@ -801,6 +825,7 @@ PINNED = [
     (1, [2, 0, Str_('\\`*_{}[]()#+-.!<>&')]),
     (1, [3, 0, T_(Str_('a'), Sym_('ndash'), Sym_('nbsp'), Sym_('newblock'), Tag_('em', Str_('b')))]),
     (1, [0, 0, Sym_('zzz')]),
+    (4, ['a\\\\{b}']), (5, ['a\\\\{b}']), (5, ['Tables\\\\{and {Figures\\\\}}']), (5, ['\\textbackslash{x}']), (4, ['a\\{b\\}']), (5, ['{\\\\}{x}']),
     (2, [0, '&amp;']), (2, [0, '&lt;blink&gt;']), (2, [0, 'caf&#233;']), (2, [0, '&x;']), (2, [2, '\\*a\\\\']), (2, [2, '&amp;']),
     (2, [1, '\\&{\\%}']), (2, [3, 'a--b~c']), (1, [0, 0, Tag_('em', Str_('&lt;blink&gt;'), Str_(' caf&#233;'))]),
     (1, [0, 0, HRef_('u', Str_('x'), ext=1)]),          # F10 neighbourhood: external survives rendering
@@ -854,6 +879,22 @@ def gen(tier, rng):
             yield ('exhaustive_latex', 4, [v])
             if brace_balanced(v) or n <= 4:
                 yield ('exhaustive_latex', 5, [v])
+    # links whose text is / is not their own URL, URLs with the characters LaTeX escapes, both link modes
+    for u in URLS:
+        for ext in (0, 1):
+            for kids in ([Str_(u)], [Str_('see '), Str_(u)], [Tag_('em', Str_(u))], [Str_('x_y')]):
+                for b in range(4):
+                    yield ('links', 1, [b, 0, HRef_(u, *kids, ext=ext)])
+                    yield ('links', 1, [b, 0, T_(Str_('a '), HRef_(u, *kids, ext=ext), Str_('.'))])
+    # field values with backslashes next to braces (tokens: a { } \\\\ \\)
+    L = 5 if tier == 'quick' else 6
+    for n in range(1, L + 1):
+        for ts in itertools.product(['a', '{', '}', '\\\\', '\\'], repeat=n):
+            v = ''.join(ts)
+            if '\\' in v:
+                yield ('exhaustive_latex_backslash', 4, [v])
+                if brace_balanced(v):
+                    yield ('exhaustive_latex_backslash', 5, [v])
     # (b) structured random
     nrand = 3000 if tier == 'quick' else 60000
     for i in range(nrand):
